@@ -93,6 +93,12 @@ def special_packets(rnd):
             c, _ = P.coap(rnd)
             u = P.udp(rnd, c, csum=(lambda x: P.udp_checksum_v6(src, dst, x)) if v6 else (lambda x: P.udp_checksum_v4(src, dst, x)))
             out.append(('IPv6-UDP-CoAP' if v6 else 'IPv4-UDP-CoAP', P.ipv6(rnd, u, nh, src, dst) if v6 else P.ipv4(rnd, u, nh, src, dst)))
+    # SCTP packets whose CRC-32c is exactly 0x00000000, 0xFFFFFFFF, 1, 0x80000000 (SCTP has no "zero means none" convention)
+    for target in (b'\0\0\0\0', b'\xff\xff\xff\xff', b'\0\0\0\x01', b'\x80\0\0\0', b'\0\0\0\0'):
+        r_ = P.sctp_with_checksum(rnd, target)
+        if r_ is not None:
+            out.append(('SCTP', r_[0]))
+            out.append(('IPv6', P.ipv6(rnd, r_[0], 132)))
     # SCTP carried in UDP (port 132, the predictive stacks): the UDP checksum covers the SCTP packet with ITS checksum in place
     for v6 in (True, False, True, False):
         src, dst = (rnd.randbytes(16), rnd.randbytes(16)) if v6 else (rnd.randbytes(4), rnd.randbytes(4))
@@ -115,6 +121,31 @@ def special_packets(rnd):
                 body2 = body[:-2] + struct.pack('!H', ww)
                 u = P.udp(rnd, body2, csum=f, sport=struct.unpack('!H', u0[:2])[0], dport=5683)
                 if struct.unpack('!H', u[6:8])[0] == (target or 0xffff):
+                    out.append(('IPv6-UDP-CoAP' if v6 else 'IPv4-UDP-CoAP', (P.ipv6(rnd, u, 17, src, dst) if v6 else P.ipv4(rnd, u, 17, src, dst))))
+                    break
+    # pseudo-headers whose PLAIN word sum s satisfies (s & 0xffff) + (s >> 16) >= 0x10000 (one fold is not enough), with the payload solved so
+    # that the checksum is 0xFFFE: the running total passes through exactly 0x1FFFF
+    for v6 in (True, False, True):
+        body = bytes([0x40, 1, 0, 1, 0xff]) + rnd.randbytes(rnd.choice([1, 3])) + b'\0\0'
+        ulen = 8 + len(body)
+        src0 = (bytes.fromhex('20010db8') + b'\xff' * 10) if v6 else b'\xff\xff'
+        dst = (bytes.fromhex('20010db8') + b'\xff' * 12) if v6 else b'\xff\xff\xff\xfe'
+        tail = struct.pack('!IHBB', ulen, 0, 0, 17) if v6 else struct.pack('!BBH', 0, 17, ulen)
+        words = lambda bs: sum(struct.unpack('!%dH' % (len(bs) // 2), bs))
+        base = words(src0 + dst + tail)
+        cand = [w for w in range(65536) if (((base + w) & 0xffff) + ((base + w) >> 16)) >= 0x10000]
+        if not cand:
+            continue
+        src = src0 + struct.pack('!H', rnd.choice(cand))
+        f = (lambda x, a=src, d_=dst: P.udp_checksum_v6(a, d_, x)) if v6 else (lambda x, a=src, d_=dst: P.udp_checksum_v4(a, d_, x))
+        u0 = P.udp(rnd, body, csum=None, dport=5683)
+        raw = P.csum16((src + dst + tail) + u0)
+        s_ = (~raw) & 0xffff
+        for target in (0xfffe, 0xfffd):
+            w = (((~target) & 0xffff) - s_) % 0xffff
+            for ww in (w, w or 0xffff):
+                u = P.udp(rnd, body[:-2] + struct.pack('!H', ww), csum=f, sport=struct.unpack('!H', u0[:2])[0], dport=5683)
+                if struct.unpack('!H', u[6:8])[0] == target:
                     out.append(('IPv6-UDP-CoAP' if v6 else 'IPv4-UDP-CoAP', (P.ipv6(rnd, u, 17, src, dst) if v6 else P.ipv4(rnd, u, 17, src, dst))))
                     break
     return out
